@@ -1,17 +1,19 @@
 import Proofs.C19E2E
+import Proofs.E2ERawBody
 /-!
 # C05 on spelled sources, for every good delimiter set: raw and comment blocks, end to end from bytes
 
 Combines `scan_spell` (the tokenizer reads a clean spelling back), the block parser, the compiler and
 the renderer: `run` on the bytes `TL raw TR body… TL endraw TR`.
+
+Since the repair `fixes/raw-comment-lexical` the tokenizer treats raw and comment lexically, and the
+theorems at the end of this file hold for EVERY body: any bytes in which no end tag of the block begins
+(`raw_body_bytes_emitted`, `comment_body_bytes_dropped`) — unclosed `{%` and `{{` included, which before
+the repair swallowed the end tag.
 -/
 
 def Item.objArgs : Item → Option Bytes
   | .obj args _ _ _ _ => some args
-  | _ => none
-
-def Item.tagName : Item → Option Bytes
-  | .tag name _ _ _ _ _ _ => some name
   | _ => none
 
 /-- the arguments of every object are inside the expression-lexer model (no negative-zero literal) -/
@@ -158,22 +160,90 @@ theorem comment_source_renders_nothing (P : Prims) (O : OutPrims) (cfg : Cfg) (f
       · simp only [List.mem_singleton] at ht; subst ht; intro h; cases h
       · cases ht
 
-/-- `[ raw ]<<- x | >>[ if ][ endraw ]` under `<< >> [ ]` renders to `<<- x | >>[ if ]` (the object is not an
-    expression, the `if` is never closed: the body is not parsed) -/
-example : run stdPrims stdOut { delims := [[60, 60], [62, 62], [91], [93]] } (fsOfList []) 1
-    (spell exDelims [.tag rawName [] false false [32] [] [32], .obj [120, 32, 124] true false [32] [32],
-      .tag [105, 102] [] false false [32] [] [32], .tag endrawName [] false false [32] [] [32]]) 1 []
-    = .ok (spell exDelims [.obj [120, 32, 124] true false [32] [32], .tag [105, 102] [] false false [32] [] [32]]) :=
-  raw_source_renders_body stdPrims stdOut { delims := [[60, 60], [62, 62], [91], [93]] } (fsOfList []) 1 1 []
-    [.obj [120, 32, 124] true false [32] [32], .tag [105, 102] [] false false [32] [] [32]] false false [32] [] [32] [32] [] [32]
-    (by decide) (by decide) (by decide)
-    (by rfl)
+/-! ## The body as arbitrary bytes -/
 
-/-- `{% comment -%} {{ | }}{% endif %}{%- endcomment %}` under the defaults renders to nothing -/
+/-- **C05, from source bytes, EVERY body (raw).** For every good delimiter set and every byte string `body`
+    in which no `endraw` tag begins (`TL -? \s* endraw \s* -? TR`, decided by `endTagAtB`; no other
+    condition: the body may hold unclosed or unbalanced delimiters, objects that are not expressions, tags
+    of any kind), the source `TL raw TR body TL endraw TR` renders to exactly `body`. -/
+theorem raw_body_bytes_emitted (P : Prims) (O : OutPrims) (cfg : Cfg) (fs : FS) (fuel line : Nat) (env : Env)
+    (body : Bytes) (hr1 hl2 : Bool) (wl1 wm1 wr1 wl2 wm2 wr2 : Bytes)
+    (hg : GoodDelims (Delims.ofList cfg.delims))
+    (ho : CleanItem (Delims.ofList cfg.delims) (.tag rawName [] false hr1 wl1 wm1 wr1))
+    (hc : CleanItem (Delims.ofList cfg.delims) (.tag endrawName [] hl2 false wl2 wm2 wr2))
+    (hin : ∀ i, i < body.length → endTagAtB (Delims.ofList cfg.delims) endrawName
+      ((body ++ (Item.tag endrawName [] hl2 false wl2 wm2 wr2).spell (Delims.ofList cfg.delims)).drop i) = false) :
+    run P O cfg fs fuel
+      ((Item.tag rawName [] false hr1 wl1 wm1 wr1).spell (Delims.ofList cfg.delims) ++
+        (body ++ (Item.tag endrawName [] hl2 false wl2 wm2 wr2).spell (Delims.ofList cfg.delims))) line env = .ok body := by
+  have hclean := clean_lex_block (Delims.ofList cfg.delims) hg nameRaw (.inl rfl) body false hr1 hl2 false wl1 wm1 wr1 wl2 wm2 wr2 []
+    ho ⟨hc, fun h => absurd rfl h, trivial, trivial⟩ (fun i hi => by have := hin i hi; simp only [spell, List.append_nil]; exact this)
+  have := raw_source_renders_body P O cfg fs fuel line env (optText body) hr1 hl2 wl1 wm1 wr1 wl2 wm2 wr2 hg hclean
+    (by intro it hit; unfold optText at hit; split at hit
+        · cases hit
+        · simp only [List.mem_singleton] at hit; subst hit; intro h; cases h)
+    (by unfold ObjsModelled optText; split <;> rfl)
+  rw [spell_optText] at this
+  rw [← this, spell_block]
+  simp [spell]
+
+/-- **C05, from source bytes, EVERY body (comment).** For every good delimiter set and every byte string
+    `body` in which no `endcomment` tag begins, the source `TL comment TR body TL endcomment TR` renders
+    to nothing and is never an error. -/
+theorem comment_body_bytes_dropped (P : Prims) (O : OutPrims) (cfg : Cfg) (fs : FS) (fuel line : Nat) (env : Env)
+    (body : Bytes) (hr1 hl2 : Bool) (wl1 wm1 wr1 wl2 wm2 wr2 : Bytes)
+    (hg : GoodDelims (Delims.ofList cfg.delims))
+    (ho : CleanItem (Delims.ofList cfg.delims) (.tag commentName [] false hr1 wl1 wm1 wr1))
+    (hc : CleanItem (Delims.ofList cfg.delims) (.tag endcommentName [] hl2 false wl2 wm2 wr2))
+    (hin : ∀ i, i < body.length → endTagAtB (Delims.ofList cfg.delims) endcommentName
+      ((body ++ (Item.tag endcommentName [] hl2 false wl2 wm2 wr2).spell (Delims.ofList cfg.delims)).drop i) = false) :
+    run P O cfg fs fuel
+      ((Item.tag commentName [] false hr1 wl1 wm1 wr1).spell (Delims.ofList cfg.delims) ++
+        (body ++ (Item.tag endcommentName [] hl2 false wl2 wm2 wr2).spell (Delims.ofList cfg.delims))) line env = .ok [] := by
+  have hclean := clean_lex_block (Delims.ofList cfg.delims) hg nameComment (.inr rfl) body false hr1 hl2 false wl1 wm1 wr1 wl2 wm2 wr2 []
+    ho ⟨hc, fun h => absurd rfl h, trivial, trivial⟩ (fun i hi => by have := hin i hi; simp only [spell, List.append_nil]; exact this)
+  have := comment_source_renders_nothing P O cfg fs fuel line env (optText body) hr1 hl2 wl1 wm1 wr1 wl2 wm2 wr2 hg hclean
+    (by intro it hit; unfold optText at hit; split at hit
+        · cases hit
+        · simp only [List.mem_singleton] at hit; subst hit; intro h; cases h)
+    (by unfold ObjsModelled optText; split <;> rfl)
+  rw [← this, spell_block]
+  simp [spell]
+
+/-! The former counterexamples (K-C05-raw-unclosed-delimiter, K-C05-comment-unclosed-delimiter): bodies with an opening
+    delimiter that is not closed inside the body. -/
+def exStdTag (n : Bytes) : Item := .tag n [] false false [32] [] [32]
+
+/-- `{% raw %}{% b {% endraw %}` renders to `{% b ` -/
 example : run stdPrims stdOut {} (fsOfList []) 1
-    (spell Delims.default [.tag commentName [] false true [32] [] [], .text [32], .obj [124] false false [32] [32],
-      .tag [101, 110, 100, 105, 102] [] false false [32] [] [32], .tag endcommentName [] true false [32] [] [32]]) 1 []
+    ((exStdTag rawName).spell Delims.default ++ ([123, 37, 32, 98, 32] ++ (exStdTag endrawName).spell Delims.default)) 1 []
+    = .ok [123, 37, 32, 98, 32] :=
+  raw_body_bytes_emitted stdPrims stdOut {} (fsOfList []) 1 1 [] [123, 37, 32, 98, 32] false false [32] [] [32] [32] [] [32]
+    (by decide) (by decide) (by decide) (by decide)
+/-- `{% raw %}a {{ x {% endraw %}` renders to `a {{ x ` -/
+example : run stdPrims stdOut {} (fsOfList []) 1
+    ((exStdTag rawName).spell Delims.default ++ ([97, 32, 123, 123, 32, 120, 32] ++ (exStdTag endrawName).spell Delims.default)) 1 []
+    = .ok [97, 32, 123, 123, 32, 120, 32] :=
+  raw_body_bytes_emitted stdPrims stdOut {} (fsOfList []) 1 1 [] [97, 32, 123, 123, 32, 120, 32] false false [32] [] [32] [32] [] [32]
+    (by decide) (by decide) (by decide) (by decide)
+/-- `{% raw %}%}\t{%b c{{- x -}}{% endraw %}` renders to `%}\t{%b c{{- x -}}` -/
+example : run stdPrims stdOut {} (fsOfList []) 1
+    ((exStdTag rawName).spell Delims.default ++
+      ([37, 125, 9, 123, 37, 98, 32, 99, 123, 123, 45, 32, 120, 32, 45, 125, 125] ++ (exStdTag endrawName).spell Delims.default)) 1 []
+    = .ok [37, 125, 9, 123, 37, 98, 32, 99, 123, 123, 45, 32, 120, 32, 45, 125, 125] :=
+  raw_body_bytes_emitted stdPrims stdOut {} (fsOfList []) 1 1 [] [37, 125, 9, 123, 37, 98, 32, 99, 123, 123, 45, 32, 120, 32, 45, 125, 125]
+    false false [32] [] [32] [32] [] [32] (by decide) (by decide) (by decide) (by decide)
+/-- `{% comment %}{% if {% endcomment %}` renders to nothing -/
+example : run stdPrims stdOut {} (fsOfList []) 1
+    ((exStdTag commentName).spell Delims.default ++ ([123, 37, 32, 105, 102, 32] ++ (exStdTag endcommentName).spell Delims.default)) 1 []
     = .ok [] :=
-  comment_source_renders_nothing stdPrims stdOut {} (fsOfList []) 1 1 []
-    [.text [32], .obj [124] false false [32] [32], .tag [101, 110, 100, 105, 102] [] false false [32] [] [32]]
-    true true [32] [] [] [32] [] [32] (by decide) (by decide) (by decide) (by rfl)
+  comment_body_bytes_dropped stdPrims stdOut {} (fsOfList []) 1 1 [] [123, 37, 32, 105, 102, 32] false false [32] [] [32] [32] [] [32]
+    (by decide) (by decide) (by decide) (by decide)
+/-- the same under `<< >> [ ]`, with hyphens: `[ raw-]<<- x | >>[ if [-endraw ]` renders to `<<- x | >>[ if ` -/
+example : run stdPrims stdOut { delims := [[60, 60], [62, 62], [91], [93]] } (fsOfList []) 1
+    ((Item.tag rawName [] false true [32] [] []).spell exDelims ++
+      ([60, 60, 45, 32, 120, 32, 124, 32, 62, 62, 91, 32, 105, 102, 32] ++ (Item.tag endrawName [] true false [] [] [32]).spell exDelims)) 1 []
+    = .ok [60, 60, 45, 32, 120, 32, 124, 32, 62, 62, 91, 32, 105, 102, 32] :=
+  raw_body_bytes_emitted stdPrims stdOut { delims := [[60, 60], [62, 62], [91], [93]] } (fsOfList []) 1 1 []
+    [60, 60, 45, 32, 120, 32, 124, 32, 62, 62, 91, 32, 105, 102, 32] true true [32] [] [] [] [] [32]
+    (by decide) (by decide) (by decide) (by decide)
